@@ -8,6 +8,7 @@ import (
 	"os"
 	"path/filepath"
 	"sort"
+	"strconv"
 )
 
 type famDef struct {
@@ -26,10 +27,18 @@ var families = map[string]famDef{
 	"difflinks": {"C07", famDiffLinks, exactRunner},
 	"format":    {"C14", famFormat, Runner{}},
 	"badroots":  {"C19", famBadRoots, Runner{}},
+	"backends":  {"C18", famBackends, Runner{}},
+	"filecrash": {"C17", famFileCrash, Runner{}},
 	"diffcost":  {"C15", famDiffCost, exactRunner},
 }
 
 func main() {
+	if len(os.Args) >= 6 && os.Args[1] == "-child-filestore" {
+		n, _ := strconv.Atoi(os.Args[3])
+		lim, _ := strconv.Atoi(os.Args[4])
+		childFileStore(os.Args[2], n, lim, os.Args[5])
+		return
+	}
 	fam := flag.String("family", "", "family to run")
 	seed := flag.Int64("seed", 1, "PRNG seed")
 	tier := flag.String("tier", "quick", "quick|thorough")
